@@ -1,11 +1,13 @@
-// Correspondence harness for C31 (date and IPv4 codecs; the IPv6 part lives in c31v6 when present).
+// Correspondence harness for C31 (date, IPv4 and IPv6-literal codecs).
 package main
 
 import (
+	"math/big"
 	"fmt"
 	"math/rand"
 	"net"
 	"net/http"
+	"net/netip"
 	"strconv"
 	"strings"
 	"time"
@@ -15,7 +17,7 @@ import (
 )
 
 type desc struct {
-	Op   string  `json:"op"` // datefast | dateround | ipv4 | ipv4round
+	Op   string  `json:"op"` // datefast | dateround | ipv4 | ipv4round | ipv6
 	S    hlib.B  `json:"s,omitempty"`
 	Secs int64   `json:"secs,omitempty"`
 	IP   []int64 `json:"ip,omitempty"`
@@ -33,8 +35,26 @@ func mkdate(r *rand.Rand) []byte {
 	return []byte(s)
 }
 
+// wrapFields: decimal fields whose value is small modulo 2^8 / 2^16 / 2^32 / 2^64 or sits at a signed
+// boundary — the inputs on which a truncating or wrapping accumulator would wrongly accept.
+func wrapFields() []string {
+	var out []string
+	for _, base := range []string{"256", "65536", "4294967296", "9223372036854775808", "18446744073709551616", "36893488147419103232", "340282366920938463463374607431768211456"} {
+		b, _ := new(big.Int).SetString(base, 10)
+		for _, k := range []int64{-1, 0, 1, 7, 255, 256} {
+			v := new(big.Int).Add(b, big.NewInt(k))
+			out = append(out, v.String(), "00"+v.String())
+		}
+	}
+	out = append(out, "9999999999999999999", "99999999999999999999", "10000000000000000000", "9223372036854775807", "2147483648", "2147483647", "512", "511", "1000", "0256", "00000000000000000000255", "00000000000000000000256")
+	return out
+}
+
 func corpus() []desc {
 	var c []desc
+	for _, f := range wrapFields() {
+		c = append(c, desc{Op: "ipv4", S: []byte("1.2.3." + f)}, desc{Op: "ipv4", S: []byte(f + ".2.3.4")}, desc{Op: "ipv4", S: []byte("1." + f + ".3.4")})
+	}
 	for _, s := range []string{"Sun, 06 Nov 1994 08:49:37 GMT", "sun, 06 nov 1994 08:49:37 GMT", "Tue, 31 Feb 2023 00:00:00 GMT", "Thu, 29 Feb 2024 23:59:59 GMT",
 		"Wed, 29 Feb 2023 00:00:00 GMT", "Mon, 29 Feb 2100 00:00:00 GMT", "Tue, 29 Feb 2000 00:00:00 GMT", "Mon, 31 Apr 2023 00:00:00 GMT",
 		"Mon, 00 Jan 2023 00:00:00 GMT", "Mon, 01 Jan 0000 00:00:00 GMT", "Fri, 31 Dec 9999 23:59:59 GMT", "Mon, 01 Jan 2023 24:00:00 GMT",
@@ -52,6 +72,9 @@ func corpus() []desc {
 		"1.2.3.-4", "1.2.3.+4", "a.b.c.d", "", ".", "...", "1.2.3.0x4", "999999999999999999999.1.1.1", "1.2.3.2550", "1.2.3.260", "1.2.3.25a", "127.0.0.1:80", "0.0.0.0", "00000000000000000000000.0.0.1"} {
 		c = append(c, desc{Op: "ipv4", S: []byte(s)})
 	}
+	for _, h := range v6corpus {
+		c = append(c, desc{Op: "ipv6", S: []byte(h)})
+	}
 	for _, ip := range [][]int64{{0, 0, 0, 0}, {255, 255, 255, 255}, {1, 22, 0, 255}, {10, 100, 9, 99}, {127, 0, 0, 1}} {
 		c = append(c, desc{Op: "ipv4round", IP: ip})
 	}
@@ -60,8 +83,159 @@ func corpus() []desc {
 
 var ipAlpha = []byte("0123456789..259a -+x")
 
+// ---- IPv6 literals -----------------------------------------------------------
+
+var v6corpus = []string{"[::1]", "[::]", "[1:2:3:4:5:6:7:8]", "[1:2:3:4:5:6:7::]", "[::2:3:4:5:6:7:8]", "[1:2:3:4:5:6:7:8::]", "[::1:2:3:4:5:6:7:8]", "[1:2:3:4::5:6:7:8]",
+	"[1:2:3::5:6:7:8]", "[::1.2.3.4]", "[1:2:3:4:5:6:1.2.3.4]", "[1:2:3:4:5:6:7:1.2.3.4]", "[1:2:3:4:5:1.2.3.4]", "[1:2:3:4:5::1.2.3.4]", "[1:2:3:4:5:6::1.2.3.4]",
+	"[::ffff:1.2.3.4]", "[::FFFF:255.255.255.255]", "[::ffff:01.2.3.4]", "[::ffff:1.2.3.04]", "[::ffff:1.2.3.256]", "[::ffff:1.2.3]", "[::ffff:1.2.3.4.5]", "[::ffff:1..3.4]",
+	"[::ffff:1.2.3.]", "[::ffff:.1.2.3]", "[::1.2.3.4:5]", "[1.2.3.4::]", "[1.2.3.4]", "[::0.0.0.0]", "[::00.0.0.0]", "[::1.2.3.4000]", "[::1.2.3.0004]", "[:1.2.3.4]", "[:::1.2.3.4]",
+	"[fe80::1%en0]", "[fe80::1%]", "[fe80::1%25en0]", "[fe80::1%%]", "[%en0]", "[::%en0]", "[::1.2.3.4%z]", "[1:2:3:4:5:6:1.2.3.4%z]", "[fe80::1%a]b]", "[fe80::1%a:b]", "[fe80::1%a.b]",
+	"[:::]", "[1:::2]", "[:1::2]", "[1::2:]", "[:1:2:3:4:5:6:7:8]", "[1:2:3:4:5:6:7:8:]", "[:]", "[1:]", "[:1]", "[12345::]", "[::12345]", "[1:2:3:4:5:6:7:12345]", "[::abcd]", "[::ABCD]",
+	"[::abcg]", "[::g]", "[1::2::3]", "[::1::]", "[1:2:3:4:5:6:7:8:9]", "[1:2:3:4:5:6:7]", "[1]", "[]", "[", "]", "[::1", "[::1]]", "[::1]x", "[::1]:80", "[::1]:", "[::1]:8a", "[::1]:80]",
+	"[::1]]:80", "[::1][::1]", "[[::1]]", "x", "", "::1", "[::1 ]", "[ ::1]", "[0:0:0:0:0:0:0:0]", "[0000:0000:0000:0000:0000:0000:0000:0000]", "[00000::]", "[1:2:3:4:5:6:7:8%z]",
+	"[::ffff:1.2.3.4]:443", "[::f.1.2.3]", "[::1.2.3.4.]", "[1::2:3:4:5:6:7:8]", "[1:2:3:4:5:6:7::8]", "[::.]", "[::1.]", "[1:2:3:4:5:6:7.7.7.7]", "[::1.2.3.4::]", "[1::1.2.3.4::]"}
+
+func hexGroup(r *rand.Rand) string {
+	n := 1 + r.Intn(4)
+	switch r.Intn(30) {
+	case 0:
+		n = 5
+	case 1:
+		n = 0
+	}
+	b := make([]byte, n)
+	al := "0123456789abcdefABCDEF"
+	for i := range b {
+		b[i] = al[r.Intn(len(al))]
+	}
+	if n > 0 && r.Intn(40) == 0 {
+		b[r.Intn(n)] = "gG-.x "[r.Intn(6)]
+	}
+	return string(b)
+}
+
+func quad(r *rand.Rand) string {
+	n := 4
+	switch r.Intn(12) {
+	case 0:
+		n = 3
+	case 1:
+		n = 5
+	}
+	parts := make([]string, n)
+	for i := range parts {
+		switch r.Intn(10) {
+		case 0:
+			parts[i] = strconv.Itoa(250 + r.Intn(12))
+		case 1:
+			parts[i] = strings.Repeat("0", 1+r.Intn(2)) + strconv.Itoa(r.Intn(256))
+		case 2:
+			parts[i] = ""
+		case 3:
+			parts[i] = "0"
+		default:
+			parts[i] = strconv.Itoa(r.Intn(256))
+		}
+	}
+	return strings.Join(parts, ".")
+}
+
+// genV6 draws a bracketed host from the grammar of RFC 4291 texts with the counts around the limits.
+func genV6(r *rand.Rand) []byte {
+	var addr string
+	v4 := r.Intn(3) == 0
+	w := 0 // groups the tail stands for
+	tail := ""
+	if v4 {
+		tail, w = quad(r), 2
+	}
+	grp := func(n int) string {
+		g := make([]string, n)
+		for i := range g {
+			g[i] = hexGroup(r)
+		}
+		return strings.Join(g, ":")
+	}
+	if r.Intn(5) < 2 { // no "::": 8 groups, sometimes 7 or 9
+		n := 8 - w
+		switch r.Intn(8) {
+		case 0:
+			n--
+		case 1:
+			n++
+		}
+		addr = grp(n)
+		if v4 {
+			if n > 0 {
+				addr += ":"
+			}
+			addr += tail
+		}
+	} else { // with "::": total written groups 0..8
+		tot := r.Intn(8)
+		if r.Intn(6) == 0 {
+			tot = 7 + r.Intn(2)
+		}
+		tot -= w
+		if tot < 0 {
+			tot = 0
+		}
+		l := 0
+		if tot > 0 {
+			l = r.Intn(tot + 1)
+		}
+		left, right := grp(l), grp(tot-l)
+		if v4 {
+			if right != "" {
+				right += ":"
+			}
+			right += tail
+		}
+		addr = left + "::" + right
+		if r.Intn(25) == 0 { // a second "::"
+			addr = strings.Replace(addr, ":", "::", 1)
+		}
+	}
+	switch r.Intn(40) {
+	case 0:
+		addr = ":" + addr
+	case 1:
+		addr += ":"
+	case 2:
+		addr = strings.Replace(addr, "::", ":::", 1)
+	}
+	switch r.Intn(12) {
+	case 0:
+		addr += "%en0"
+	case 1:
+		addr += "%"
+	case 2:
+		addr += "%25en0"
+	case 3:
+		addr += hlib.Pick(r, []string{"%a]b", "%1:2", "%1.2", "%%", "% "})
+	}
+	host := "[" + addr + "]"
+	switch r.Intn(14) {
+	case 0:
+		host += ":80"
+	case 1:
+		host += ":"
+	case 2:
+		host += hlib.Pick(r, []string{"]", "x", "]:80", ":8a", ":80]", " ", "[", ":-1"})
+	case 3:
+		host = host[:len(host)-1]
+	}
+	b := []byte(host)
+	if r.Intn(8) == 0 {
+		b = hlib.Mutate(r, b, 1+r.Intn(2), []byte(":.%][0123456789abcdefABCDEFgG "))
+	}
+	return b
+}
+
 func gen(r *rand.Rand, i int) desc {
-	switch r.Intn(8) {
+	switch r.Intn(12) {
+	case 8, 9, 10, 11:
+		return desc{Op: "ipv6", S: genV6(r)}
 	case 0, 1, 2:
 		return desc{Op: "datefast", S: mkdate(r)}
 	case 3: // a valid date with one byte mutated
@@ -75,7 +249,11 @@ func gen(r *rand.Rand, i int) desc {
 		for k := 0; k < 4; k++ {
 			switch r.Intn(6) {
 			case 0:
-				parts = append(parts, strconv.Itoa(250+r.Intn(12)))
+				if r.Intn(3) == 0 {
+					parts = append(parts, hlib.Pick(r, wrapFields()))
+				} else {
+					parts = append(parts, strconv.Itoa(250+r.Intn(12)))
+				}
 			case 1:
 				parts = append(parts, strings.Repeat("0", r.Intn(4))+strconv.Itoa(r.Intn(256)))
 			default:
@@ -136,6 +314,24 @@ func run(d desc) hlib.Case {
 			c.Coq = hlib.App("CIPv4", hlib.Hex(d.S), hlib.Some(zlist([]int64{int64(ip[0]), int64(ip[1]), int64(ip[2]), int64(ip[3])})))
 			c.Sig = "ipv4-ok-" + strconv.Itoa(len(d.S))
 		}
+	case "ipv6":
+		impl := fasthttp.VerifValidateIPv6Literal(d.S)
+		nip, shape := false, "nobracket"
+		if len(d.S) > 0 && d.S[0] == '[' {
+			shape = "unclosed"
+			if j := strings.LastIndexByte(string(d.S), ']'); j >= 1 {
+				a := string(d.S[1:j])
+				ad, err := netip.ParseAddr(a)
+				nip = err == nil && ad.Is6()
+				dc := 0
+				if strings.Contains(a, "::") {
+					dc = 1
+				}
+				shape = fmt.Sprintf("c%d-d%d-v%v-z%v-t%d", strings.Count(a, ":"), dc, strings.Contains(a, "."), strings.Contains(a, "%"), min(len(d.S)-j-1, 2))
+			}
+		}
+		c.Coq = hlib.App("CIPv6", hlib.Hex(d.S), hlib.Bool(impl), hlib.Bool(nip))
+		c.Sig = fmt.Sprintf("ipv6-%v-%v-%s", impl, nip, shape)
 	case "ipv4round":
 		ip := net.IPv4(byte(d.IP[0]), byte(d.IP[1]), byte(d.IP[2]), byte(d.IP[3]))
 		app := fasthttp.AppendIPv4(nil, ip)
@@ -160,7 +356,8 @@ func main() {
 		PropOK:   "prop_ok",
 		Rule: "structured enumeration of RFC 1123 dates (weekday tokens in several cases incl. invalid, day 00-39, month tokens, boundary years 0000-9999, h/m/s incl. 24/60/61, malformed digits), " +
 			"valid dates with 1-2 mutated bytes, random instants in years 0000-9999 formatted and parsed back, IPv4 strings from a field grammar with boundary values 250-261, leading zeros, mutations and junk; " +
-			"real time.Parse / net results are recorded in each case; non-trivial = distinct (operation, accepted?, stdlib accepted?, length/month/weekday) class",
+			"bracketed IPv6 hosts from the RFC 4291 grammar (7/8/9 groups, '::' at every position, 1-5 digit groups in both cases, dotted-quad tails with leading zeros/256/3 or 5 parts, zones incl. empty and %25, ports and garbage after the bracket, second '::', ':::', leading/trailing ':') plus byte mutations, each with the real netip.ParseAddr verdict; " +
+			"real time.Parse / net / netip results are recorded in each case; non-trivial = distinct (operation, accepted?, stdlib accepted?, length/month/weekday) class",
 		Corpus: corpus,
 		Gen:    gen,
 		Run:    run,
